@@ -454,6 +454,8 @@ package otr3
 //@   ensures [C02.layout.unsigned.enc,C10.accept.data.enc] result == nil ==> (c.encryptedMsg === msg[25+ylen(msg):unsignedLen(msg)])
 //@   ensures [C02.layout.unsigned.cache,C10.accept.data.cache] result == nil ==> (c.serializeUnsignedCache === msg[0:unsignedLen(msg)])
 //@   ensures [C02.layout.short] len(msg) < 25 ==> result != nil
+//@ define unsignedFits(msg) = len(msg) >= 25 && 25 + ylen(msg) <= len(msg) && old(be64(msg, 13 + ylen(msg))) != 0 && unsignedLen(msg) <= len(msg)
+//@   ensures [C04.unsigned.complete,C10.unsigned.complete] unsignedFits(msg) ==> result == nil
 
 //@ func (*dataMsg).deserialize
 //@   requires c != nil && v != nil
@@ -607,7 +609,7 @@ package otr3
 //@   requires r != nil
 //@   modifies r.messages.m, elems(r.messages.m)
 //@   ensures [C18.queue.append] !old(r.retransmitting) ==> len(r.messages.m) == len(old(r.messages.m)) + 1
-//@   ensures [C18.queue.skip] old(r.retransmitting) ==> r.messages.m === old(r.messages.m)
+//@   ensures [C18.queue.skip,C19.queue.skip] old(r.retransmitting) ==> r.messages.m === old(r.messages.m)
 //@ func (*resendContext).pending
 //@   requires r != nil
 //@   pure
@@ -1184,6 +1186,8 @@ package otr3
 //@ func ExtractMPI
 //@   ensures [C17.mpi.complete,C10.mpi.complete] ok <==> (len(d) >= 4 && int(be32(d, 0)) <= len(d) - 4)
 //@   ensures [C17.mpi.rest] ok ==> (mpi != nil && newPoint === d[4+int(be32(d, 0)):])
+//@   ensures [C17.mpi.value,C10.mpi.value] ok ==> (fresh(mpi) && val(mpi) == nat(bytes(d[4:4+int(be32(d, 0))])))
+//@   ensures !ok ==> (newPoint === nil && mpi == nil)
 //@ func ExtractMPIs
 //@   pure
 //@   ensures [C17.mpis.parse] result2 ==> (nonglobal(result1) && (forall k in 0..len(result1) :: result1[k] != nil))
